@@ -84,6 +84,7 @@ type FnTr struct {
 	curInstr ssa.Instruction
 	fnFrame  []cellRange // declared modifies of the top-level function, evaluated at entry
 	storeChecks bool     // recovering function with a frame: every write is checked against it
+	monoDefs map[string][2]*Term
 	lazy     []func(*Term) *Term
 	idxCands []*Term // index terms used by the code: instantiation candidates for quantifiers
 	recSpecs map[string]*SpecFunc
